@@ -320,6 +320,21 @@ def iterLive (size0 : Nat) : Nat → List Nat → IterRes
     else if size0 ≤ pos then .finished
     else iterLive size0 (pos + 1) rest
 
+/-! ### The killer's periodic re-sweep while the operator is paused -/
+
+/-- `async with asyncio.timeout(1.0): await operator_paused.wait_for(False)`: while paused, the killer
+    repeats its sweep every second (64 ticks); the sweep itself takes no time. -/
+def killerPeriod : Tick := 64
+
+/-- One round of the pausing loop for one listed daemon: `stop_daemon(OPERATOR_PAUSING)` is spawned
+    UNCONDITIONALLY — also for a daemon that already carries OPERATOR_PAUSING because `pause_daemons`
+    set it in a processing cycle (the #1266 safeguard). That cycle cannot escalate: its delays lead to
+    a touch whose event never arrives while the streams are paused; the re-sweeps are what cancels. -/
+def sweepSpawns (_i : Inst) : Bool := true
+
+/-- The first round at or after `t`, rounds being at `p`, `p + 64`, `p + 128`, … (pause toggled at `p`). -/
+def nextRound (p t : Tick) : Tick := p + ((t - p + 63) / 64) * 64
+
 /-! ### Micro-steps of `_timer`'s control flow -/
 
 structure TCfg where
